@@ -149,7 +149,10 @@ func registerTimeStubs(sh *Shared) {
 		tt := sh.prog.ImportedPackage("time").Type("Time").Type()
 		t := zero(tt).(structure)
 		var sec value
-		if e.concrete != nil || !i.symClock {
+		if e.concrete != nil && i.symClock {
+			// concrete replay of a model found with the symbolic clock: the instants of the model
+			sec = i.nondet("env.now", types.Int64, "I64")
+		} else if !i.symClock {
 			i.clockTick++
 			sec = int64(clockBase + i.clockTick)
 		} else {
@@ -169,7 +172,10 @@ func registerTimeStubs(sh *Shared) {
 	})
 	reg("time.Since", func(fr *frame, args []value) value {
 		i := fr.i
-		if i.ex.concrete != nil || !i.symClock {
+		if i.ex.concrete != nil && i.symClock {
+			return i.nondet("env.since", types.Int64, "I64")
+		}
+		if !i.symClock {
 			return int64(1000)
 		}
 		v := i.nondet("env.since", types.Int64, "I64").(sym)
@@ -180,7 +186,10 @@ func registerTimeStubs(sh *Shared) {
 	})
 	reg("time.Until", func(fr *frame, args []value) value {
 		i := fr.i
-		if i.ex.concrete != nil || !i.symClock {
+		if i.ex.concrete != nil && i.symClock {
+			return i.nondet("env.until", types.Int64, "I64")
+		}
+		if !i.symClock {
 			return int64(1) << 50
 		}
 		v := i.nondet("env.until", types.Int64, "I64").(sym)
